@@ -608,7 +608,7 @@ int main(int argc, char** argv)
   spec.bounds_quick = "all surjective assignments: quads 2x2 (aligned and rotated cells) all p, 3x2 p<=3, triangles 4 cells all p / fan of 5 p<=3, hexa 2x2x1 all p, 2x2x2 p<=2, "
     "6 tetrahedra p<=2, unit_circle_quad_5 p<=3; depth 2 (2D) / 1 (3D); recursive: 2x2 quads and 3x2 quads with 2 parents x (1..2 children each), parents refined 0/1 times; "
     "Parti2Lvl p=1..64 on 9 meshes; PartiIterative strips 1xN (N<=10), blocks, hexa, triangles, p<=4, 4 budget pairs, seeds 0..15";
-  spec.bounds_thorough = "as quick plus 3x2 quads all p, fan all p, 2x2x2 hexa p<=4, tetra p<=3, unit_circle_quad_5 all p, flowbench_s3d_01_hexa_11 p=2, depth 2 in 3D; "
+  spec.bounds_thorough = "as quick plus 3x2 quads all p, fan all p, 2x2x2 hexa p<=3, tetra p<=3, unit_circle_quad_5 all p, flowbench_s3d_01_hexa_11 p=2, depth 2 in 3D; "
     "recursive also on 2x2x1 hexa; Parti2Lvl p<=256; PartiIterative seeds 0..63, p<=6";
   spec.assumptions = {
     "entities of patch and base meshes are identified by exact vertex coordinates (integer lattice); refined base meshes come from FEAT's StandardRefinery (verified by C10)",
@@ -631,7 +631,7 @@ int main(int argc, char** argv)
       do_assignments<T>(c, vm::gen_simplex_block(2, 2, 1, 1), 1, 4, 2, "assign");
       do_assignments<T>(c, rotate_cells(vm::gen_star(true, 2, 5)), 1, th ? 5 : 3, 2, "assign");
       do_assignments<H>(c, vm::gen_block(3, 2, 2, 1), 1, 4, 1, "assign");
-      do_assignments<H>(c, rotate_cells(vm::gen_block(3, 2, 2, 2)), 1, th ? 4 : 2, th ? 2 : 1, "assign");
+      do_assignments<H>(c, rotate_cells(vm::gen_block(3, 2, 2, 2)), 1, th ? 3 : 2, th ? 2 : 1, "assign");
       do_assignments<S>(c, rotate_cells(vm::gen_simplex_block(3, 1, 1, 1)), 1, th ? 3 : 2, th ? 2 : 1, "assign");
       vm::MeshSpec uc = load_file_spec(repo + "/data/meshes/unit_circle_quad_5.xml", false, 2);
       if(!uc.cells.empty()) do_assignments<Q>(c, uc, 1, th ? 5 : 3, 2, "assign");
